@@ -57,7 +57,8 @@ type reqPlan struct {
 	Chunked   bool   `json:"chunked,omitempty"`
 	Wait      bool   `json:"wait"` // the client sends this request only after the server asked for more (everything before is answered)
 	Seed      int64  `json:"seed"`
-	RespPool  bool   `json:"resp_pool,omitempty"` // directresp: response from AcquireResponse, released right after the call
+	RespPool  bool   `json:"resp_pool,omitempty"`  // directresp: response from AcquireResponse, released right after the call
+	PreHijack int    `json:"pre_hijack,omitempty"` // gated-late and direct kinds: before the timeout the handler calls ctx.Hijack (1) and HijackSetNoResponse(true) (2)
 }
 
 type connPlan struct {
@@ -157,6 +158,9 @@ func genPlan(rnd *rand.Rand, ci int) casePlan {
 			}
 			q.Pre = rnd.Intn(2) == 0
 			q.RespPool = rnd.Intn(3) == 0
+			if rnd.Intn(3) == 0 {
+				q.PreHijack = 1 + rnd.Intn(2)
+			}
 			if q.Method == "POST" {
 				n := rnd.Intn(200)
 				b := make([]byte, n)
@@ -254,9 +258,10 @@ type caseState struct {
 	enteredW int
 	harness  []string
 
-	gauge    atomic.Int64
-	gaugeMax atomic.Int64
-	wg       sync.WaitGroup
+	gauge       atomic.Int64
+	gaugeMax    atomic.Int64
+	hijackCalls atomic.Int64 // hijack handlers registered by handlers that then timed out, and run by the server nevertheless
+	wg          sync.WaitGroup
 }
 
 func (cs *caseState) harnessBug(s string) {
@@ -333,8 +338,26 @@ func (cs *caseState) inner(ctx *fasthttp.RequestCtx) {
 		time.Sleep(time.Duration(cs.plan.TimeoutMs) * time.Millisecond) // schedule generator only: lands next to the timer
 		fastRespond(ctx, st)
 	default:
+		cs.preHijack(ctx, st)
 		<-st.gate
 		runLate(ctx, st)
+	}
+}
+
+// preHijack asks for a hijack before the timeout. The request then times out, so the
+// client gets the timeout response, the connection goes on serving requests and the
+// hijack handler must never run.
+func (cs *caseState) preHijack(ctx *fasthttp.RequestCtx, st *reqState) {
+	if st.plan.PreHijack == 0 {
+		return
+	}
+	mk := fmt.Sprintf("%s-hijack-%d-%d", sentinel, cs.plan.Case, st.uid)
+	ctx.Hijack(func(c net.Conn) {
+		cs.hijackCalls.Add(1)
+		c.Write([]byte(mk))
+	})
+	if st.plan.PreHijack == 2 {
+		ctx.HijackSetNoResponse(true)
 	}
 }
 
@@ -407,6 +430,7 @@ func (cs *caseState) handler(ctx *fasthttp.RequestCtx) {
 			ctx.Response.Header.Set("X-Pre", mk)
 			ctx.SetContentType("text/" + mk)
 		}
+		cs.preHijack(ctx, st)
 		cs.wg.Add(1)
 		go func() {
 			defer cs.wg.Done()
@@ -731,7 +755,13 @@ func runCase(plan casePlan, seedRnd *rand.Rand) (cs *caseState, probs []problem,
 			add("serveconn-error", fmt.Sprintf("conn %d: ServeConn returned %v", c, cst.err))
 		}
 		if closed, _ := cst.sc.Closed(); !closed {
-			add("conn-not-closed", fmt.Sprintf("conn %d not closed after ServeConn returned", c))
+			key := "conn-not-closed"
+			for _, st := range cst.reqs {
+				if st.plan.PreHijack > 0 && st.outcome == "timeout" {
+					key = "timed-out-hijack-honoured" // ServeConn leaves only hijacked connections open
+				}
+			}
+			add(key, fmt.Sprintf("conn %d not closed after ServeConn returned", c))
 		}
 		if _, wr := cst.sc.AfterClose(); wr > 0 {
 			add("write-after-close", fmt.Sprintf("conn %d: %d writes after Close", c, wr))
@@ -831,6 +861,9 @@ func runCase(plan casePlan, seedRnd *rand.Rand) (cs *caseState, probs []problem,
 			add("extra-bytes-after-responses", fmt.Sprintf("conn %d: %d bytes after the last response: %s", c, len(w)-off, mon.Short(w[off:], 300)))
 		}
 	}
+	if n := cs.hijackCalls.Load(); n > 0 {
+		add("timed-out-hijack-honoured", fmt.Sprintf("%d hijack handler(s) registered by a handler that timed out were run by the server", n))
+	}
 	if g := cs.gaugeMax.Load(); g > int64(cs.effC) {
 		add("concurrency-gauge-exceeded", fmt.Sprintf("%d wrapped handlers ran at once, Concurrency is %d", g, cs.effC))
 	}
@@ -856,7 +889,7 @@ func runCase(plan casePlan, seedRnd *rand.Rand) (cs *caseState, probs []problem,
 func TestC16(t *testing.T) {
 	r := mon.Start(t, "C16")
 	defer r.Finish()
-	r.Rule("case = one Server (Concurrency 1-3/8/default, ReduceMemoryUsage on/off, initialised through Serve or ServeConn-only) serving 1-3 scripted connections (sequential or concurrent, fragmented reads, pipelined and wait-for-response requests GET/HEAD/POST) whose requests are: plain, fast under TimeoutHandler, finishing next to the timer, gated-late under TimeoutHandler/TimeoutWithCodeHandler (1-20 ms), or direct TimeoutError/WithCode/WithResponse with a gated goroutine; late handlers run 1-40 PRNG-chosen mutations of the abandoned ctx (38 kinds) writing markers, released at a PRNG-chosen logical event (at once … end of case); distinct = (concurrency class, options, set of kinds, methods of timed-out requests, release classes, outcomes); non-trivial = at least one request observed timed out whose late handler executed mutations")
+	r.Rule("case = one Server (Concurrency 1-3/8/default, ReduceMemoryUsage on/off, initialised through Serve or ServeConn-only) serving 1-3 scripted connections (sequential or concurrent, fragmented reads, pipelined and wait-for-response requests GET/HEAD/POST) whose requests are: plain, fast under TimeoutHandler, finishing next to the timer, gated-late under TimeoutHandler/TimeoutWithCodeHandler (1-20 ms), or direct TimeoutError/WithCode/WithResponse with a gated goroutine; in 1/3 of them the handler asks for a hijack (with or without HijackSetNoResponse) before it times out, which must never be honoured; late handlers run 1-40 PRNG-chosen mutations of the abandoned ctx (38 kinds) writing markers, released at a PRNG-chosen logical event (at once … end of case); distinct = (concurrency class, options, set of kinds, methods of timed-out requests, release classes, outcomes); non-trivial = at least one request observed timed out whose late handler executed mutations")
 	r.Assume("h1 reference parser decides response framing; ctx.LastTimeoutErrorResponse()!=nil read on the serving goroutine right after the wrapper returned is the observation 'the timeout fired'")
 	r.Assume("a 429 is judged only when decidable without timing: required when gated late handlers hold all slots, forbidden when no more than Concurrency wrapped calls were ever started; everything else (slot released a moment after the handler returned) is counted as skipped_429_undecided")
 	r.Assume("not judged: HTTP/1.0 keep-alive header on timeout responses, Content-Length value of HEAD responses, late handlers that call TimeoutError* again or write to ctx.Conn() directly (caller misuse)")
@@ -889,6 +922,10 @@ func TestC16(t *testing.T) {
 					seenTO = true
 					tom[st.plan.Method] = true
 					steps += int(st.steps.Load())
+					if st.plan.PreHijack > 0 && st.plan.Kind != "wedge" && st.plan.Kind != "wfast" {
+						r.Event("timeouts_after_hijack_request", 1)
+						rel[fmt.Sprintf("hijack%d", st.plan.PreHijack)] = true
+					}
 					switch {
 					case st.plan.Release == 0:
 						rel["now"] = true
@@ -948,6 +985,7 @@ func TestC16(t *testing.T) {
 	r.Require("late_steps_executed", n)
 	r.Require("responses_checked", n)
 	r.Require("followups_after_timeout_served", n/20)
+	r.Require("timeouts_after_hijack_request", n/10)
 }
 
 func keys(m map[string]bool) []string {
